@@ -10,10 +10,14 @@ LEAN_MODULES = ["Properties.C06V2"]
 THEOREMS = ["EngineModel.Properties.C06V2." + t for t in [
     "v2_C06_setter_spec", "v2_C06_written_rows", "v2_C06_getter_snapshot", "v2_C06_slot_getters_safe",
     "v2_C06_get_set", "v2_C06_frame", "v2_C06_other_track", "v2_C06_step", "v2_C06_history",
-    "v2_C06_obs_is_snapshot", "v2_C06_dbok_empty", "v2_C06_dbok_create"]]
+    "v2_C06_obs_is_snapshot", "v2_C06_dbok_empty", "v2_C06_dbok_create",
+    "v2_C06_model_get_set_frame", "v2_C06_model_slot_frame", "v2_C06_model_derived", "v2_C06_eight_slots",
+    "v2_C06_history_getters", "v2_C06_value_last_set", "v2_C06_statement_level", "v2_C06_dbok_update",
+    "v2_C06_removed_track", "v2_C06_norm_is_C01_norm"]]
 ASSUMPTIONS = [
-    "2.x: each setter is modelled as atomic (its statements all succeed or the call throws before writing); partial "
-    "updates under injected faults are C14's subject",
+    "2.x: the lens theorems are stated on Db.set (whole effect or nothing); v2_C06_statement_level proves that the "
+    "statement sequences of track_impl.cpp (EngineModel/TracksV2/Table.lean: SELECT / UPDATE in the C++ order, transaction "
+    "scopes, UNIQUE(path) failures) project onto it; injected I/O faults at arbitrary statements are C14's subject",
     "2.x: rows the setters start from are rows the library stored (cue/loop labels fit the one-byte prefix, length "
     "column readable) - theorem hypothesis DbOk, proved for every table built by create_track; foreign rows are "
     "covered by v2_C06_setter_spec's explicit hypotheses only",
@@ -21,7 +25,10 @@ ASSUMPTIONS = [
 MANIFEST_TEXT = ("Schema 2.x: every setter of track_impl is proved to be the lens the Spec describes (named field = "
                  "normalised value, the other 24 snapshot fields and all other tracks unchanged, throws exactly where "
                  "the Spec rejects, never ub), getters = snapshot fields, lifted by induction to arbitrary setter "
-                 "histories over any number of tracks; tied by generated histories over 3 tracks (every setter, slot "
+                 "histories over any number of tracks; get∘set, frame (incl. per-slot and the derived filename / extension), "
+                 "history_getters and 'the value last set' are also stated on the Model's own applySetter / getters; the "
+                 "statement sequences of track_impl.cpp project onto the lens model (v2_C06_statement_level); removed tracks "
+                 "stay removed and refuse every call; tied by generated histories over 3 tracks (every setter, slot "
                  "setters at -1..9) with all getters, snapshot() of all tracks and the raw row after each step, and "
                  "the lens Spec evaluated on the real library's previous answers.")
 TRUSTED_EXTRA = []
@@ -65,10 +72,15 @@ def gen_history(rng, tier, schema, hid):
         s = G.gen_snapshot(rng, tier, hid * 10 + k, valid_bias=1.0)
         if isinstance(s.get("sample_rate"), str) and s.get("waveform"):
             s["sample_rate"] = 44100.0
-        if s.get("waveform") and (s.get("sample_count") is None or s.get("sample_rate") is None):
-            s["waveform"] = b""
+        G.storable_waveform(s)
         s["relative_path"] = b"lib/%s%d.mp3" % (v.encode(), hid)
         L.append("mktrack %s %s" % (v, G.fmt_snapshot(s)))
+    # in half of the histories the stored default grid / default main cue of some tracks differ from the adjusted
+    # ones (Engine does that; no library call does): getters and snapshot() read the adjusted ones and must agree
+    if rng.random() < 0.5:
+        for v in VARS:
+            if rng.random() < 0.7:
+                L.append("t2.skew " + v)
     steps = []   # (index of the set line, var, field, valuetext)
     n = 14 if tier == "quick" else 40
     for v in VARS:
@@ -98,7 +110,7 @@ def check_getters(lines, ho, k, v, viol):
         return 0
     n = 0
     j = k + 1
-    body = lambda j: [lines[k], "impl: " + snap[:2000], lines[j], "impl: " + ho[j][:2000]]
+    body = lambda j: lines[:j + 1] + ["impl(snap): " + snap[:2000], "impl(getter): " + ho[j][:2000]]
     for g in GETTERS:
         exp = "ok " + (f[g] if g != "relative_path" else f[g][1:])
         if ho[j] != exp:
@@ -126,17 +138,8 @@ def check_getters(lines, ho, k, v, viol):
     return n
 
 
-def tie(ctx):
-    rng = random.Random(ctx.seed * 6151 + 606)
-    per_schema = 4 if ctx.tier == "quick" else 60
-    hs = []
-    hid = 0
-    for sch in G.SCHEMAS:
-        for _ in range(per_schema):
-            hid += 1
-            hs.append(gen_history(rng, ctx.tier, sch, hid))
-    scripts = [h[0] for h in hs]
-    results = G.run_pair(runner, scripts)
+def judge(hs, results):
+    """hs: [(lines, steps)], results: [(lines, impl, model)] -> divergences, violations, hist, distinct, n_spec"""
     divergences, violations = [], []
     hist = {"setter": {}, "outcome": {"ok": 0, "throw": 0, "ub": 0}, "throw_class": {}, "slot_index": {},
             "clash_expected": 0, "steps": 0, "getter_checks": 0}
@@ -160,7 +163,7 @@ def tie(ctx):
             continue
         # current real snapshots
         cur = {}
-        pos = 4
+        pos = 4 + sum(1 for l in lines[4:8] if l.startswith("t2.skew "))
         for v in VARS:
             cur[v] = ho[pos]
             hist["getter_checks"] += check_getters(lines, ho, pos, v, viol)
@@ -211,10 +214,10 @@ def tie(ctx):
                 hist["clash_expected"] += 1
                 if not res.startswith("throw") or new[v] != cur[v]:
                     viol("path-clash", "set_relative_path to a path another track has was not refused cleanly (%s)" % res,
-                         [lines[k], "before: " + cur[v][:1500], "after:  " + new[v][:1500]], f)
+                         script_to_here + ["before: " + cur[v][:1500], "after:  " + new[v][:1500]], f)
             elif cur[v].startswith("ok "):
                 spec_lines.append("t2.spec.set %s %s %s" % (G.to_signed_file_bytes(cur[v][3:]), f, val))
-                spec_ref.append((hi, k, v, f, res, cur[v], new[v]))
+                spec_ref.append((hi, k, v, f, res, cur[v], new[v], j))
             # getter = snapshot field on the observed tracks
             for w in VARS:
                 if blocks[w] + 1 < len(lines) and lines[blocks[w] + 1].startswith("get %s " % w):
@@ -223,10 +226,11 @@ def tie(ctx):
             if res.startswith("ok"):
                 distinct.add((f, val[:64]))
     spec_out = [o for outs in runner.run_model(runner.shard(spec_lines, NCPU)) for o in outs] if spec_lines else []
-    for (hi, k, v, f, res, before, after), sp in zip(spec_ref, spec_out):
+    for (hi, k, v, f, res, before, after, j), sp in zip(spec_ref, spec_out):
         lines = hs[hi][0]
-        body = [lines[0]] + lines[1:4] + ["…", lines[k], "impl(set): " + res, "impl(before): " + before[:2500],
-                                          "impl(after):  " + after[:2500], "spec(after):  " + sp[:2500]]
+        # the whole script up to the observations after the call: a complete replay
+        body = lines[:j] + ["call: " + lines[k][:300], "impl(set): " + res, "impl(before): " + before[:2500],
+                            "impl(after):  " + after[:2500], "spec(after):  " + sp[:2500]]
         if sp == "reject":
             if not res.startswith("throw"):
                 viol("not-rejected", "set_%s accepted a value / index the library must reject (%s)" % (f, res), body, f)
@@ -248,11 +252,26 @@ def tie(ctx):
                     viol("frame", "set_%s changed other field(s): %s" % (f, ",".join(x for x in bad if x != own)), body, f)
         else:
             divergences.append({"input": "t2.spec.set … %s" % f, "impl": "", "model": sp[:300]})
-    n_lines = sum(len(s) for s in scripts) + len(spec_lines)
+    return divergences, violations, hist, len(distinct), len(spec_lines)
+
+
+def tie(ctx):
+    rng = random.Random(ctx.seed * 6151 + 606)
+    per_schema = 4 if ctx.tier == "quick" else 60
+    hs = []
+    hid = 0
+    for sch in G.SCHEMAS:
+        for _ in range(per_schema):
+            hid += 1
+            hs.append(gen_history(rng, ctx.tier, sch, hid))
+    scripts = [h[0] for h in hs]
+    results = G.run_pair(runner, scripts)
+    divergences, violations, hist, ndistinct, nspec = judge(hs, results)
+    n_lines = sum(len(s) for s in scripts) + nspec
     return {
         "ok": not divergences and not violations,
         "evaluations": n_lines,
-        "distinct_nontrivial": len(distinct),
+        "distinct_nontrivial": ndistinct,
         "rule": "2.x: seeded setter histories over 3 tracks created from generated snapshots (every one of the 26 setters, "
                 "slot setters at indices 0..9, −1, ±2^31; values from the C01 generators; 25% of set_relative_path calls aim "
                 "at another track's path) on 7 schemas; after every call: snapshot() of all 3 tracks, all 24 getters + "
@@ -265,3 +284,25 @@ def tie(ctx):
         "divergences": divergences[:20],
         "violations": violations[:8],
     }
+
+
+def replay(ctx, hdr, body):
+    """re-run a recorded 2.x setter history on the library built from the working tree and on the model,
+    and judge it again with the oracle of this part"""
+    import re
+    lines = [l for l in body if not re.match(r"^[A-Za-z_()0-9 ]{1,20}: ", l)]
+    if len(lines) < 5 or not lines[0].startswith("create schema_2_") or not lines[1].startswith("mktrack ta "):
+        return None
+    steps = []
+    for i, l in enumerate(lines):
+        t = l.split(" ", 3)
+        if t[0] == "set" and len(t) >= 3:
+            steps.append((i, t[1], t[2], t[3] if len(t) > 3 else ""))
+    res = G.run_pair(runner, [lines])
+    div, viol, _, _, _ = judge([(lines, steps)], res)
+    _, ho, mo = res[0]
+    tail = "\n".join("%s\n   impl:  %s\n   model: %s%s" % (l[:200], h[:300], m[:300], "" if G.same(h, m) else "   <-- differ")
+                     for l, h, m in list(zip(lines, ho, mo))[-4:])
+    txt = "%d setter calls re-run on the working tree; %d model/implementation differences\n%s\n%s" % (
+        len(steps), len(div), tail, "\n".join("ORACLE: " + v["header"]["what"] for v in viol))
+    return (not div and not viol), txt
